@@ -173,7 +173,8 @@ def run_list_optimal(p):
             if m.metric_id == mid:
                 v = m.value
         return v
-    cons = [t for t in stored if t.state == study_pb2.Trial.State.SUCCEEDED and all(val(t, i) is not None for i in ids)]
+    cons = [t for t in stored if t.state == study_pb2.Trial.State.SUCCEEDED and all(val(t, i) is not None for i in ids)
+            and not any(math.isnan(val(t, i)) for i in ids)]      # the property: SUCCEEDED, every metric, no NaN objective
     vecs = {t.id: [sign[i] * val(t, i) for i in ids] for t in cons}
     exp = [t.id for t in cons if not any(dom(vecs[u.id], vecs[t.id]) for u in cons)]
     got = r.get('value')
@@ -285,7 +286,7 @@ def run_enum_xla(p):
             if got.get('value') != exp and len(bad[k]) < 3:
                 bad[k].append({'points': ps, 'got': got, 'expected': exp})
     return {'checked': checked, 'failures_by_num_shards': {str(k): v for k, v in bad.items()},
-            'reproduced': any(v for k, v in bad.items() if k != 1)}
+            'reproduced': any(v for k, v in bad.items())}
 
 
 # ------------------------------------------------------------------------------------------ InRamPolicySupporter.GetBestTrials
